@@ -149,6 +149,51 @@ Theorem C13_cell_horizontal : forall x0 bsx widths c cs x w bw,
 Proof. exact cell_horizontal_spec. Qed.
 Print Assumptions C13_cell_horizontal.
 
+(* direction: rtl (tables.go:48-56, 157-161): the columns run from the right
+   edge xr = content box x + used width, column 0 rightmost; a cell sits on the
+   LAST column it spans and reaches the right edge of its first one: it covers
+   exactly its grid slots.  Check/C13.v compares the float32 instance with every
+   laid-out rtl table (code 24). *)
+Theorem C13_column_positions_rtl : forall widths xr bsx j,
+  (j < length widths)%nat ->
+  nth j (column_positions_rtl exactQ xr bsx widths) 0 == col_left_rtl xr bsx widths j.
+Proof. exact column_positions_rtl_spec. Qed.
+Print Assumptions C13_column_positions_rtl.
+
+Theorem C13_cell_horizontal_rtl : forall xr bsx widths c cs x w bw,
+  (0 <= hc_gridx c)%Z -> (1 <= hc_colspan c)%Z ->
+  cell_horizontal_rtl exactQ widths (column_positions_rtl exactQ xr bsx widths) bsx c = Ok (Some (cs, x, w, bw)) ->
+  let gx := Z.to_nat (hc_gridx c) in
+  let n := Z.to_nat cs in
+  cs = Z.min (hc_colspan c) (Z.of_nat (length widths) - hc_gridx c) /\ (1 <= cs)%Z /\
+  x == col_left_rtl xr bsx widths (gx + n - 1) /\
+  x + bw == col_right_rtl xr bsx widths gx /\
+  bw == sumQ (firstn n (skipn gx widths)) + inject_Z (cs - 1) * bsx /\
+  w == bw - (hc_pl c + hc_pr c + hc_bl c + hc_br c).
+Proof. exact cell_horizontal_rtl_spec. Qed.
+Print Assumptions C13_cell_horizontal_rtl.
+
+Theorem C13_columns_adjacent_rtl : forall xr bsx widths j,
+  (S j < length widths)%nat ->
+  col_left_rtl xr bsx widths j - col_right_rtl xr bsx widths (S j) == bsx.
+Proof. exact columns_adjacent_rtl. Qed.
+Print Assumptions C13_columns_adjacent_rtl.
+
+(* the rtl grid is the ltr grid reflected in the content box [x0, x0 + tw] *)
+Theorem C13_col_rtl_mirror : forall x0 tw bsx widths j,
+  (j < length widths)%nat ->
+  col_right_rtl (x0 + tw) bsx widths j - x0 == tw - (col_left x0 bsx widths j - x0) /\
+  col_left_rtl (x0 + tw) bsx widths j - x0 == tw - (col_right x0 bsx widths j - x0).
+Proof. exact col_rtl_mirror. Qed.
+Print Assumptions C13_col_rtl_mirror.
+
+(* a rtl table 200 wide from x = 10, spacing 2, columns 30 / 40 / 50: the cell
+   spanning columns 1-2 lies on [84, 176], left of column 0 = [178, 208] *)
+Example C13_example_rtl :
+  cell_horizontal_rtl exactQ [30; 40; 50] (column_positions_rtl exactQ 210 2 [30; 40; 50]) 2 (mkH 1 2 0 0 0 0)
+  = Ok (Some (2%Z, 84, 92, 92)).
+Proof. vm_compute. reflexivity. Qed.
+
 (* no cell has a negative used size, never smaller than the content's minimum:
    the used content width of a cell is at least mc (mc = 0: non negative; mc =
    min-content width of its content) exactly when the columns it spans, with
